@@ -363,6 +363,7 @@ func C08(c *mon.Ctx) {
 	c08pairs(c)
 	c08long(c)
 	c08encoderRetry(c)
+	c08bulk(c)
 	// (a) random programmatic, (b) parsed from harness text, (c) decoded from JSON
 	n := c.N(30000, 500000)
 	c.ParFor("random", n, func(w *mon.W, i int) {
